@@ -185,6 +185,27 @@ pub(in crate::primitives) const fn diameter_to_threshold(diameter: u32) -> u32 {
     }
 }
 
+/// Verification hook: the real scanline iterator of `points()` for the single row `y`.
+#[cfg(embedded_graphics_verif)]
+pub(in crate::primitives) fn verif_scanline_at(
+    shape: &Circle,
+    y: i32,
+) -> Option<crate::primitives::common::Scanline> {
+    let mut scanlines = points::Scanlines::new(shape);
+    scanlines.verif_set_row(y);
+    scanlines.next()
+}
+
+/// Verification hook: the real styled scanline iterator for the single row `y`.
+#[cfg(embedded_graphics_verif)]
+pub(in crate::primitives) fn verif_styled_scanline_at(
+    stroke_area: &Circle,
+    fill_area: &Circle,
+    y: i32,
+) -> Option<crate::primitives::common::StyledScanline> {
+    styled::verif_styled_scanline_at(stroke_area, fill_area, y)
+}
+
 #[cfg(test)]
 mod tests {
     use super::*;
